@@ -167,6 +167,7 @@ var Externs = map[string]ExternModel{
 	"(encoding/binary.littleEndian).PutUint32":  {Writes: []int{1}, Ret: "none", Known: true},
 	"(encoding/binary.littleEndian).PutUint64":  {Writes: []int{1}, Ret: "none", Known: true},
 	"crypto/sha512.New":                         {Ret: "fresh", Known: true},
+	"crypto/sha512.Sum512":                      {Ret: "none", Known: true}, // one-shot digest returned by value
 	"io.ReadFull":                               {Writes: []int{1}, Ret: "none", Known: true, Entropy: true},
 	"crypto/subtle.ConstantTimeCompare":         {Ret: "none", Known: true},
 	"crypto/subtle.ConstantTimeCopy":            {Writes: []int{1}, Ret: "none", Known: true},
